@@ -264,6 +264,58 @@ pub fn run(rt: &tokio::runtime::Runtime, cols: &[&str]) -> Value {
                 }
             }, json!({"bad_case": format!("unknown field type {}", cols[1])}))
         }
+        // legacy field-map API
+        "l_tokens" | "l_track" | "l_split" => {
+            let t = unhex_str(cols[1]).unwrap_or_default();
+            let fields = match swift_mt_message::parser::parse_block4_fields(&t) {
+                Ok(f) => f,
+                Err(e) => return err_json(&e),
+            };
+            let flat = |m: &std::collections::HashMap<String, Vec<(String, usize)>>| -> Vec<Value> {
+                let mut v: Vec<(usize, String, String)> = Vec::new();
+                for (tag, vals) in m { for (val, pos) in vals { v.push((*pos, tag.clone(), val.clone())); } }
+                // stable order for equal stamps: by stamp, then by the order inside the tag's vector
+                v.sort_by_key(|x| x.0);
+                v.into_iter().map(|(p, t, val)| json!([t, val, p])).collect()
+            };
+            match cols[0] {
+                "l_tokens" => {
+                    // per-tag vectors keep insertion order: report them too
+                    let mut per: Vec<(String, Vec<(String, usize)>)> = fields.iter().map(|(k, v)| (k.clone(), v.clone())).collect();
+                    per.sort();
+                    json!({"ok": true, "entries": flat(&fields), "per_tag": per})
+                }
+                "l_track" => {
+                    let mut tracker = swift_mt_message::parser::FieldConsumptionTracker::new();
+                    let mut outs = Vec::new();
+                    for op in cols[2].split(';').filter(|s| !s.is_empty()) {
+                        let mut it = op.split('|');
+                        let tag = it.next().unwrap_or("");
+                        let vs = it.next().unwrap_or("*");
+                        let owned: Vec<&str> = vs.split(',').collect();
+                        let valid: Option<&[&str]> = if vs == "*" { None } else { Some(&owned[..]) };
+                        let r = swift_mt_message::parser::find_field_with_variant_sequential_constrained(&fields, tag, &mut tracker, valid);
+                        outs.push(match r { Some((v, l, p)) => json!([v, l, p]), None => Value::Null });
+                    }
+                    json!({"ok": true, "outs": outs})
+                }
+                _ => {
+                    // "cfg:<marker>:<0|1>:<c,fields>" builds a SequenceConfig directly (its fields are public)
+                    let cfg = if let Some(rest) = cols[2].strip_prefix("cfg:") {
+                        let p: Vec<&str> = rest.split(':').collect();
+                        swift_mt_message::parser::SequenceConfig {
+                            sequence_b_marker: p.first().unwrap_or(&"21").to_string(),
+                            has_sequence_c: p.get(1) == Some(&"1"),
+                            sequence_c_fields: p.get(2).map(|x| x.split(',').filter(|y| !y.is_empty()).map(|y| y.to_string()).collect()).unwrap_or_default(),
+                        }
+                    } else { swift_mt_message::parser::get_sequence_config(cols[2]) };
+                    match swift_mt_message::parser::split_into_sequences(&fields, &cfg) {
+                        Ok(p) => json!({"ok": true, "a": flat(&p.sequence_a), "b": flat(&p.sequence_b), "c": flat(&p.sequence_c)}),
+                        Err(e) => err_json(&e),
+                    }
+                }
+            }
+        }
         // header codecs and block extraction
         "hdr1" => {
             let t = unhex_str(cols[1]).unwrap_or_default();
